@@ -199,6 +199,7 @@ def main(argv=None):
     known = [k for k in load_known() if k.get("property") == prop]
     obligations = []
     refuted = []
+    confirmed_any = []  # violations reproduced on the real code: they stand whatever else the run reports
     for modname, c in cases:
         if not c.proved:
             continue
@@ -272,6 +273,7 @@ def main(argv=None):
             continue
         if confirmed:
             lines.append(f"VIOLATION property={prop} replay={rp}")
+            confirmed_any.append(rp)
         else:
             lines.append(f"VIOLATION property={prop} replay={rp} no-failing-input-found")
         lines.append(f"  obligation {o['full']} refuted: {o['detail'][:300]}; inputs {json.dumps(o['prims'])}; "
@@ -344,6 +346,8 @@ def main(argv=None):
         os.makedirs(os.path.join(HERE, "evidence"), exist_ok=True)
         with open(os.path.join(HERE, "evidence", f"{prop}.json"), "w") as fh:
             json.dump(evidence, fh, indent=1, default=str)
+    if confirmed_any:
+        status = 1
     for l in lines:
         print(l)
     print(f"{prop}: obligations={n_ob} discharged={n_dis} refuted={len(refuted)} known={n_known} "
